@@ -50,10 +50,15 @@ CONSTANTS
     OptKind,                          \* declared type of option o: "str" | "int" | "float" | "bool"
     LitForm,                          \* "native" | "string": how numbers / booleans are written in the documents
     Family,                           \* name of the run (reporting only)
-    Emit                              \* TRUE: print every state as a JSON case
+    Emit,                             \* TRUE: print every state as a JSON case
+    Sibling,                          \* TRUE: the package has a second component `e` in stage 0 that defines nothing itself
+    HistLen                           \* 0: documents only; n > 0: every document is followed by every history of n
+                                      \*   read-only calls on ONE object (the last one a query), see "Histories" below
 
-VARIABLES defs                        \* [Slots -> SUBSET Raw]
-vars == <<defs>>
+VARIABLES defs,                       \* [Slots -> SUBSET Raw]: the document
+          hist                        \* sequence of read-only calls made so far on the object holding the document,
+                                      \*   each query with the answer it got
+vars == <<defs, hist>>
 
 Slots     == {"o", "q", "v", "w", "x"}
 VarSlots  == {"v", "w", "x"}
@@ -108,14 +113,24 @@ Eff(Q, s) == IF s \in VarSlots THEN (IF Q = "default" THEN EffVD ELSE EffVP) ELS
 RankF(Q, s) == IF s \in VarSlots THEN (IF Q = "default" THEN RankVD ELSE RankVP) ELSE (IF Q = "default" THEN RankOD ELSE RankOP)
 Rank(Q, s, l) == RankF(Q, s)[l]
 
-(* which raw layers define s: the explicit definitions plus the built-in default of option o *)
-Defined(s) == defs[s] \cup (IF s = "o" /\ OBuiltin THEN {"builtin"} ELSE {})
+(* A view = (component, are missing fields injected).  Component c is the one the layers comp/ovd/ov1 belong to;  *)
+(* its sibling e (same stage, defines nothing itself) sees everything but those.  A query that does not inject    *)
+(* missing fields (the flavour that writes the instance files) does not see the built-in defaults.                *)
+MainView == [comp |-> "c", inject |-> TRUE]
+Views == {[comp |-> c, inject |-> i] : c \in {"c", "e"}, i \in BOOLEAN}
+OwnLayers == {"comp", "ovd", "ov1", "ov2"}
+
+(* which raw layers define s in a view: the explicit definitions plus the built-in default of option o *)
+DefinedV(w, s) == (defs[s] \ (IF w.comp = "e" THEN OwnLayers ELSE {}))
+                     \cup (IF s = "o" /\ OBuiltin /\ w.inject THEN {"builtin"} ELSE {})
+Defined(s) == DefinedV(MainView, s)
 
 (* declarative: the defining layer of highest priority ("none": undefined) *)
-Top(Q, s) == LET D == Eff(Q, s) \cap Defined(s)
-                 R == RankF(Q, s)
-             IN IF D = {} THEN "none"
-                ELSE CHOOSE l \in D : \A m \in D : R[m] <= R[l]
+TopV(w, Q, s) == LET D == Eff(Q, s) \cap DefinedV(w, s)
+                     R == RankF(Q, s)
+                 IN IF D = {} THEN "none"
+                    ELSE CHOOSE l \in D : \A m \in D : R[m] <= R[l]
+Top(Q, s) == TopV(MainView, Q, s)
 
 (* operational: apply the layers one after the other, each definition replaces the value so far *)
 RECURSIVE FoldFrom(_, _, _, _)
@@ -126,42 +141,75 @@ Fold(Q, s) == FoldFrom(Q, s, 1, "none")
 (* Substitution to a fixpoint.  The value of s at layer l is the literal Code(s,l), or, at the layers RefAt(s),  *)
 (* Code(s,l) followed by a reference to NextSlot(s).  The resolved value is therefore the chain of (slot, layer) *)
 (* pairs; err = "undefined" when the chain reaches a slot nobody defines, "cyclic" when it returns to a slot.    *)
-RECURSIVE Chain(_, _, _)
-Chain(Q, s, seen) ==
-    LET l == Top(Q, s) IN
+RECURSIVE ChainV(_, _, _, _)
+ChainV(w, Q, s, seen) ==
+    LET l == TopV(w, Q, s) IN
     IF l = "none" THEN [err |-> "undefined", chain |-> <<>>]
     ELSE LET me == [s |-> s, l |-> l, code |-> Code(s, l)] IN
          IF l \notin RefAt(s) THEN [err |-> "none", chain |-> <<me>>]
          ELSE IF NextSlot(s) \in seen \cup {s} THEN [err |-> "cyclic", chain |-> <<me>>]
-         ELSE LET rest == Chain(Q, NextSlot(s), seen \cup {s})
+         ELSE LET rest == ChainV(w, Q, NextSlot(s), seen \cup {s})
               IN [err |-> rest.err, chain |-> <<me>> \o rest.chain]
-Resolve(Q, s) == Chain(Q, s, {})
+ResolveV(w, Q, s) == ChainV(w, Q, s, {})
+Resolve(Q, s) == ResolveV(MainView, Q, s)
 
-(* What is resolved when the configuration of the component is requested: the options of the run, the command   *)
-(* line, and every variable visible to the component (the resolved configuration carries the resolved variables) *)
-Visible(Q)  == {s \in VarSlots : Top(Q, s) # "none"}
-Resolved(Q) == {s \in OptSlots : Used(s) /\ Top(Q, s) # "none"} \cup Visible(Q) \cup ArgsUse
-Errs(Q)     == {Resolve(Q, s).err : s \in Resolved(Q)} \ {"none"}
+(* What is resolved when the configuration of a component is requested: the options of the run, the command line *)
+(* (only c's refers to variables), and every variable visible to the component (the resolved configuration       *)
+(* carries the resolved variables)                                                                                *)
+VisibleV(w, Q)  == {s \in VarSlots : TopV(w, Q, s) # "none"}
+ResolvedV(w, Q) == {s \in OptSlots : Used(s) /\ TopV(w, Q, s) # "none"} \cup VisibleV(w, Q)
+                      \cup (IF w.comp = "c" THEN ArgsUse ELSE {})
+ErrsV(w, Q)     == {ResolveV(w, Q, s).err : s \in ResolvedV(w, Q)} \ {"none"}
+Visible(Q)  == VisibleV(MainView, Q)
+Resolved(Q) == ResolvedV(MainView, Q)
+Errs(Q)     == ErrsV(MainView, Q)
 
-Result(Q) == [errs  |-> Errs(Q),
-              vals  |-> [s \in Resolved(Q) |-> Resolve(Q, s).chain],
-              tops  |-> [s \in {t \in Slots : Used(t)} |-> Top(Q, s)],
-              undef |-> {s \in OptSlots : Used(s) /\ Top(Q, s) = "none"}]     \* options nobody defines: null, no error
+(* the pure layering function of the document: what a query for (view, platform) must answer *)
+ResultV(w, Q) == [errs  |-> ErrsV(w, Q),
+                  vals  |-> [s \in ResolvedV(w, Q) |-> ResolveV(w, Q, s).chain],
+                  tops  |-> [s \in {t \in Slots : Used(t)} |-> TopV(w, Q, s)],
+                  undef |-> {s \in OptSlots : Used(s) /\ TopV(w, Q, s) = "none"}]   \* options nobody defines: null / absent, no error
+Result(Q) == ResultV(MainView, Q)
 
 ---------------------------------------------------------------------------
-Init == defs = [s \in Slots |-> {}]
+Init == defs = [s \in Slots |-> {}] /\ hist = <<>>
 
-Define(s, l) == /\ l \in Allowed(s) /\ l \notin defs[s]
+(* the document is written first (hist is empty), then calls are made on the object that holds it *)
+Define(s, l) == /\ hist = <<>>
+                /\ l \in Allowed(s) /\ l \notin defs[s]
                 /\ (DecoyBlock => l \notin AlwaysDecoy)
                 /\ defs' = [defs EXCEPT ![s] = @ \cup {l}]
+                /\ UNCHANGED hist
 
-DefineDecoys(s) == /\ DecoyBlock /\ Allowed(s) \cap AlwaysDecoy # {}
+DefineDecoys(s) == /\ hist = <<>>
+                   /\ DecoyBlock /\ Allowed(s) \cap AlwaysDecoy # {}
                    /\ defs[s] \cap AlwaysDecoy = {}
                    /\ defs' = [defs EXCEPT ![s] = @ \cup (Allowed(s) \cap AlwaysDecoy)]
+                   /\ UNCHANGED hist
+
+(* Histories.  The interface that reads a configuration: Query = get_component_configuration(comp, platform,      *)
+(* inject_missing_fields) (and get_component_variables), Instance = FlowIRConcrete.instance(platform,              *)
+(* inject_missing_fields) -- the document developed for one platform, also what writes the instance files --,     *)
+(* Replicate = FlowIRConcrete.replicate(platform).  None of them may write: the document is UNCHANGED and the      *)
+(* answer of every query is the pure layering function ResultV of the document, whatever was called before.        *)
+NoAnswer == [errs |-> {}, vals |-> <<>>, tops |-> <<>>, undef |-> {}]
+Query(Q, c, i) == /\ HistLen > 0 /\ Len(hist) < HistLen /\ (c = "e" => Sibling)
+                  /\ hist' = Append(hist, [op |-> "query", plat |-> Q, comp |-> c, inject |-> i,
+                                           exp |-> ResultV([comp |-> c, inject |-> i], Q)])
+                  /\ UNCHANGED defs
+Instance(Q, i) == /\ HistLen > 0 /\ Len(hist) < HistLen - 1          \* the last call of a history is a query
+                  /\ hist' = Append(hist, [op |-> "instance", plat |-> Q, comp |-> "-", inject |-> i, exp |-> NoAnswer])
+                  /\ UNCHANGED defs
+Replicate(Q) == /\ HistLen > 0 /\ Len(hist) < HistLen - 1
+                /\ hist' = Append(hist, [op |-> "replicate", plat |-> Q, comp |-> "-", inject |-> TRUE, exp |-> NoAnswer])
+                /\ UNCHANGED defs
 
 Next == \/ \E s \in {"o", "q", "v", "w", "x"}, l \in {"dg", "ds", "p1g", "p1s", "ug", "us", "comp", "ovd", "ov1",
                        "p2g", "p2s", "p2so", "ov2", "dso", "p1so", "uso"} : Define(s, l)
         \/ \E s \in {"o", "q", "v", "w", "x"} : DefineDecoys(s)
+        \/ \E Q \in {"default", "p1"}, c \in {"c", "e"}, i \in {TRUE, FALSE} : Query(Q, c, i)
+        \/ \E Q \in {"default", "p1"}, i \in {TRUE, FALSE} : Instance(Q, i)
+        \/ \E Q \in {"default", "p1"} : Replicate(Q)
 
 Spec == Init /\ [][Next]_vars
 
@@ -171,6 +219,16 @@ TypeOK == /\ \A s \in Slots : defs[s] \subseteq Allowed(s)
           /\ \A s \in VarSlots : "builtin" \notin Allowed(s)
           /\ \A s \in OptSlots : Allowed(s) \cap {"ug", "us", "uso", "builtin"} = {}
           /\ \A s \in Slots : RefAt(s) \subseteq Allowed(s)
+
+(* reads do not write: a call never changes the document, so every recorded answer is still the layering of the  *)
+(* document, and the answer does not depend on what was called before                                            *)
+ReadsDoNotWrite == [][hist' # hist => defs' = defs]_vars
+AnswersAreLayering == \A n \in 1..Len(hist) :
+                         hist[n].op = "query" => hist[n].exp = ResultV([comp |-> hist[n].comp, inject |-> hist[n].inject], hist[n].plat)
+(* the sibling never sees the component's own layers; without injection the built-in default never shows *)
+ViewsSeparate == \A w \in Views, Q \in Platforms, s \in Slots :
+                    /\ (w.comp = "e" => TopV(w, Q, s) \notin OwnLayers)
+                    /\ (~w.inject => TopV(w, Q, s) # "builtin")
 
 (* sequential override in the documented order = value of the highest-priority defining layer *)
 FoldIsTop == \A Q \in Platforms, s \in Slots : Fold(Q, s) = Top(Q, s)
@@ -205,8 +263,10 @@ DefList == {[s |-> s, l |-> l, ref |-> (l \in RefAt(s)), code |-> Code(s, l), ne
 Case == [family |-> Family, kind |-> OptKind, litform |-> LitForm, obuiltin |-> OBuiltin, args |-> ArgsUse,
          used |-> {s \in Slots : Used(s)},
          defs |-> {d \in DefList : d.l \in defs[d.s]},
+         sibling |-> Sibling, hist |-> hist,
          exp |-> [Q \in Platforms |-> Result(Q)]]
-EmitCase == Emit => PrintT(ToJson(Case))
+(* documents (HistLen = 0) are emitted as they are; with histories only the complete ones are emitted *)
+EmitCase == (Emit /\ Len(hist) = HistLen) => PrintT(ToJson(Case))
 
 ---------------------------------------------------------------------------
 (* "Typed options end up with their declared type": the catalogue of the options of a component that may take    *)
@@ -251,5 +311,5 @@ CatalogueCases == {[path |-> o.path, type |-> o.type, form |-> f.form, text |-> 
                       o \in TypedOptions, f \in UNION {CatForms(t) : t \in {"int", "float", "bool"}}, d \in {1, 2}}
 CatalogueOf == {c \in CatalogueCases : \E f \in CatForms(c.type) : f.form = c.form /\ f.text = c.text}
 (* a state-level formula (printed for the initial state only); a constant one would be evaluated by TLC at start-up *)
-EmitCatalogue == (Emit /\ \A s \in Slots : defs[s] = {}) => PrintT(ToJson(CatalogueOf))
+EmitCatalogue == (Emit /\ hist = <<>> /\ \A s \in Slots : defs[s] = {}) => PrintT(ToJson(CatalogueOf))
 =============================================================================
